@@ -374,6 +374,11 @@ pub fn build(op: &Op, hs: &mut Handles) -> Ent {
                     "leaf" => p.leaf(),
                     "identical" => p.identical(),
                     "cache" => { let c = hs.cache(v[0]); p.add_cache(&c) }
+                    // direct assignment of one of the three public fields, between builder calls
+                    "set" => {
+                        match v[0] { 0 => p.flags = v[1] as u32, 1 => p.parent = v[1] as u32, 2 => p.acpi_processor_id = v[1] as u32, _ => panic!("proc slot") }
+                        p
+                    }
                     _ => panic!("proc opt"),
                 };
             }
